@@ -221,16 +221,24 @@ def calls_for(n, U, labels, idx, tier):
     return out
 
 
-def run_traces(traces, name):
-    wd = lib.workdir(PID, name)
-    (wd / "traces.json").write_text(json.dumps(traces))
-    r = lib.run_tlc("Trace_Synth", lib.cfg(constants={"M": M, "NTRACES": len(traces)}), wd, env={"TRACE_FILE": str(wd / "traces.json")},
-                    timeout=3000)
-    lib.require_ok(r, f"Trace_Synth {name}")
-    v = {t[1] - 1: t[2:] for t in r.tuples if t[0] == "V"}
+def run_traces(traces, name, chunk=15000):
+    """Trace_Synth on the recorded traces (batched) -> ({index: verdict tail}, summed TLC statistics)"""
+    v, distinct, generated = {}, 0, 0
+    for off in range(0, len(traces), chunk):
+        part = traces[off:off + chunk]
+        wd = lib.workdir(PID, f"{name}_{off}")
+        (wd / "traces.json").write_text(json.dumps(part))
+        r = lib.run_tlc("Trace_Synth", lib.cfg(constants={"M": M, "NTRACES": len(part)}), wd, env={"TRACE_FILE": str(wd / "traces.json")},
+                        timeout=3000)
+        lib.require_ok(r, f"Trace_Synth {name}@{off}")
+        for t in r.tuples:
+            if t[0] == "V":
+                v[off + t[1] - 1] = t[2:]
+        distinct += r.distinct
+        generated += r.generated
     if len(v) != len(traces):
         raise lib.MachineryError(f"Trace_Synth verdicts are not total: {len(v)} of {len(traces)}")
-    return v, r
+    return v, (distinct, generated)
 
 
 def tag(tr):
@@ -319,8 +327,8 @@ def run(tier, seed):
     for t, _ in neg:
         traces.append(t)
     verdicts, r = run_traces([{k: v for k, v in t.items() if k not in ("msg", "inp")} for t in traces], "traces")
-    states += r.distinct
-    transitions += r.generated
+    states += r[0]
+    transitions += r[1]
     timing["tlc_trace_s"] = round(time.time() - t0, 1)
     # ---- controls
     for j in range(len(known)):
